@@ -97,8 +97,12 @@ func (g *c17Gen) quote() string {
 		body = "it" + string(other) + "s"
 		g.stats.Inc("gen.quote.other-inside")
 	case 3: // body ends with a backslash: the closing quote is only a fallback end
-		body = "a\\"
-		g.stats.Inc("gen.quote.trailing-backslash")
+		if g.r.Chance(0.15) {
+			body = "a\\"
+			g.stats.Inc("gen.quote.trailing-backslash")
+		} else {
+			body = "a\\b"
+		}
 	case 4:
 		body = "\\\\"
 		g.stats.Inc("gen.quote.double-backslash")
@@ -125,7 +129,7 @@ func (g *c17Gen) lit() string {
 
 func (g *c17Gen) params(out *[]string) {
 	n := 1 + g.r.Intn(3)
-	switch g.r.Intn(20) {
+	switch g.r.Intn(90) {
 	case 0:
 		n = 0 // walker error: empty parameter list
 		g.stats.Inc("gen.params.empty")
@@ -385,9 +389,9 @@ func TestVerifC17Parse(t *testing.T) {
 
 	st.Emit(c17ProbeClasses(t, stats), "classes ok")
 
-	total := VEnvInt("VERIF_C17_PARSE_N", 48000)
+	total := VEnvInt("VERIF_C17_PARSE_N", 32000)
 	if VThorough() {
-		total = VEnvInt("VERIF_C17_PARSE_N", 640000)
+		total = VEnvInt("VERIF_C17_PARSE_N", 400000)
 	}
 	n := total / shards
 	emit := func(kind, in string) {
